@@ -633,7 +633,7 @@ def api_case(seed, nsteps=8):
     return out
 
 
-def sched_case(seed, nsteps=8, spec_kind="random", modes=("MCS", "GENERATIONAL", "TOPOLOGICAL"), prunes=(True, False), dynamic=False):
+def sched_case(seed, nsteps=8, spec_kind="random", modes=("MCS", "GENERATIONAL", "TOPOLOGICAL"), prunes=(True, False), dynamic=False, trunc=None, graph_file=None):
     """C07 / C08: export every compiled instance (timings + windowed graph) for the Lean checker / ring replay;
     with dynamic=True also run the compiled graph with user buffer sizes / padding / late starts and check payloads."""
     import jax
@@ -662,6 +662,22 @@ def sched_case(seed, nsteps=8, spec_kind="random", modes=("MCS", "GENERATIONAL",
         graphs_raw = generate_graphs(run.nodes, ts_max, rng=jax.random.PRNGKey(spec["seed"] % 1000), num_episodes=rng.choice([1, 2]))
         lengths = list(range(int(onp.asarray(graphs_raw.vertices[spec["supervisor"]].seq).shape[0])))
         dynamic = False
+    elif graph_file is not None:
+        # a recorded graph stored with the harness (the witness of a known finding): no recording, no schedule dependence
+        class _Run:
+            pass
+
+        import json as _json
+        import os as _os
+
+        run = _Run()
+        run.nodes = rt.build_nodes(spec)
+        run.sup = run.nodes[spec["supervisor"]]
+        stored = _json.load(open(_os.path.join(_os.path.dirname(_os.path.abspath(__file__)), "data", graph_file)))
+        assert stored["spec"] == _json.loads(_json.dumps(spec)), "stored graph belongs to another specification"
+        graphs_raw = rt.graph_from_dict(stored["graph"])
+        lengths = list(range(len(stored["graph"]["vertices"][spec["supervisor"]]["seq"])))
+        dynamic = False
     elif spec_kind == "raw_sinks":
         class _Run:
             pass
@@ -678,6 +694,13 @@ def sched_case(seed, nsteps=8, spec_kind="random", modes=("MCS", "GENERATIONAL",
             return dict(skipped="empty record", spec=spec)
         run, recs, dicts = exp
         graphs_raw = base.ExperimentRecord(episodes=recs).to_graph()
+        if trunc is not None:
+            # a fixed record length per node and episode (never longer than what was recorded): removes the schedule dependence of how
+            # far the non-supervisor nodes have got at the moment the episode is stopped
+            have = {n: [int((onp.asarray(graphs_raw.vertices[n].seq)[e] >= 0).sum()) for e in range(len(lengths))] for n in names}
+            if any(trunc[n][e] > have[n][e] for n in names for e in range(len(lengths))):
+                return dict(skipped=f"record shorter than the requested truncation: {have} < {trunc}", spec=spec)
+            graphs_raw = rt.truncate_graph(graphs_raw, trunc)
     out = dict(spec=spec, feats=sorted(rt.spec_features(spec)), instances=[], dynamic=[])
     init_out = {n: int(run.nodes[n].init_output().y) for n in names}
     for mode in modes:
